@@ -169,7 +169,8 @@ class Linear(keras.layers.Layer):
         num_input_dims=self.num_input_dims,
         monotonicities=self.monotonicities,
         input_min=self.input_min,
-        input_max=self.input_max)
+        input_max=self.input_max,
+        normalization_order=normalization_order)
 
     self.use_bias = use_bias
     self.normalization_order = normalization_order
@@ -395,7 +396,8 @@ class LinearConstraints(keras.constraints.Constraint):
                                       monotonic_dominances=monotonic_dominances,
                                       range_dominances=range_dominances,
                                       input_min=input_min,
-                                      input_max=input_max)
+                                      input_max=input_max,
+                                      normalization_order=normalization_order)
     self.monotonicities = monotonicities
     self.monotonic_dominances = monotonic_dominances
     self.range_dominances = range_dominances
